@@ -329,3 +329,32 @@ func parseBVValue(v string) (uint64, bool) {
 	}
 	return 0, false
 }
+
+// Eval returns a value of t in some model of the path condition.
+func (s *Solver) Eval(t *Term) (uint64, bool) {
+	s.define(t)
+	s.send("(push)")
+	s.send("(check-sat)")
+	s.in.Flush()
+	t0 := time.Now()
+	res := s.readAnswer()
+	s.solveTime += time.Since(t0)
+	var v uint64
+	ok := false
+	if res == "sat" {
+		s.nSat++
+		s.send("(get-value (" + t.ref() + "))")
+		s.in.Flush()
+		m := map[string]string{}
+		parseValues(s.readSexp(), m)
+		for _, val := range m {
+			v, ok = parseBVValue(val)
+		}
+	} else if res == "unsat" {
+		s.nUnsat++
+	} else {
+		s.nUnknown++
+	}
+	s.send("(pop)")
+	return v, ok
+}
